@@ -95,6 +95,12 @@ PROPS = {
         "assumptions": COMMON_ASSUME,
         "exhaustive_notes": ["each of the 33 optional strings and 18 typed fields present alone, and every pair of adjacent fields"],
     },
+    "C05": {
+        "quick": [L("checked", 1.0), L("wrapping", 1.0)],
+        "thorough": [L("checked", 1.0), L("wrapping", 1.0), L("asan", 0.25), L("memcheck", 0.004, workers=16), L("miri", 0.0002, workers=16)],
+        "asan_max_alloc_mb": 256,
+        "assumptions": COMMON_ASSUME + ["termination is restated as: every call on an input <= 64 KiB finishes within 20 s of worker CPU time (two-strike rule); allocation is restated as: no single request above 1 MiB + 64 x input length"],
+    },
     "C02": {
         "quick": [L("checked", 1.0), L("wrapping", 0.25), L("checked", 1.0, mode="det", replicas=8)],
         "thorough": [L("checked", 1.0), L("wrapping", 0.25), L("checked", 1.0, mode="det", replicas=16),
